@@ -204,7 +204,9 @@ def _c02_oracle(tr, origin, meta):
 def run_c02(ctx):
     n = _tier(ctx, 24, 300)
     jobs, metas = _jobs_from(scen.values_clean, 'C02', ctx['seed'], n)
-    jobs = pc.corpus_jobs(['S1_*.scn', 'S2_*.scn', 'S15*.scn', 'S22_*.scn']) + jobs
+    ji, mi = _jobs_from(scen.values_inframe, 'C02i', ctx['seed'], max(8, n // 3))
+    metas.update(mi)
+    jobs = pc.corpus_jobs(['S1_*.scn', 'S2_*.scn', 'S15*.scn', 'S22_*.scn']) + jobs + ji
     out = pc.run_scenarios('C02', ctx, jobs, [_with_meta(metas, _c02_oracle)], nontrivial=pc.received_kinds)
     nabs = _absval(out, lambda name: sorted(metas[name]['last_value'].keys()) if name in metas else [])
     out['opstats']['value_model_replays'] = nabs
@@ -374,7 +376,7 @@ def _c07_oracle(tr, origin):
 
 def run_c07(ctx):
     n = _tier(ctx, 10, 120)
-    jobs = pc.corpus_jobs(['S8_*.scn', 'S9_*.scn']) + pc.generated_jobs('C07', ctx['seed'], n, ['promotion'], npeers=2)
+    jobs = pc.corpus_jobs(['S8_*.scn', 'S9_*.scn', 'S27_*.scn']) + pc.generated_jobs('C07', ctx['seed'], n, ['promotion'], npeers=2)
     jobs += pc.generated_jobs('C07m', ctx['seed'], max(2, n // 5), ['promotion'], npeers=3)
     out = pc.run_scenarios('C07', ctx, jobs, [_c07_oracle], nontrivial=pc.received_kinds)
     nrep, nskip = _absprom(out)
